@@ -50,7 +50,11 @@ func c19SeqCheck(cs c19Case) (clause, detail string) {
 	if out.Deadlock != "" {
 		return "goroutine-not-ended", "the connection goroutine blocks forever: " + out.Panic
 	}
-	if out.Panic != "" || out.Spin != "" {
+	if out.Spin != "" {
+		// a loop that never ends keeps goroutine, socket and registry entry for good
+		return "goroutine-not-ended", "the connection goroutine never ends: it spins at " + out.Spin
+	}
+	if out.Panic != "" {
 		return "", "" // C07
 	}
 	if !out.Returned {
